@@ -74,25 +74,26 @@ Qed.
 
 (* ---------------------------------------------------------------- HashSet *)
 Theorem gen_hash_moved_from_total :
-  forall crew_null cnt cap shrink, Gen_HashSet.Clear crew_null cnt cap 0 shrink = GenPrelude.Ok (tt, cnt, cap, 0).
+  forall crew_null nb cnt cap shrink, Gen_HashSet.Clear crew_null nb cnt cap 0 shrink = GenPrelude.Ok (tt, cnt, cap, 0).
 Proof. reflexivity. Qed.
 
 Theorem gen_hash_clear_owned :
-  forall cnt cap bk shrink,
-    exists cnt' cap' bk', Gen_HashSet.Clear false cnt cap bk shrink = GenPrelude.Ok (tt, cnt', cap', bk') /\
+  forall nb cnt cap bk shrink,
+    exists cnt' cap' bk', Gen_HashSet.Clear false nb cnt cap bk shrink = GenPrelude.Ok (tt, cnt', cap', bk') /\
       (bk = 0 -> cnt' = cnt /\ cap' = cap /\ bk' = 0) /\
       (bk <> 0 -> cnt' = 0 /\ (shrink = true -> cap' = 0 /\ bk' = 0) /\ (shrink = false -> cap' = cap /\ bk' = bk)).
 Proof.
-  intros cnt cap bk shrink. unfold Gen_HashSet.Clear. destruct (Z.eqb_spec bk 0); subst.
+  intros nb cnt cap bk shrink. unfold Gen_HashSet.Clear, Gen_HashSet.pvDestroy, Gen_HashSet.pvDestroyB. destruct (Z.eqb_spec bk 0); subst.
   - do 3 eexists. split; [reflexivity|]. split; [auto|congruence].
-  - destruct shrink; simpl; do 3 eexists; (split; [reflexivity|]); split; try congruence;
+  - destruct (Z.eqb_spec bk 0) as [E0|_]; [contradiction|].
+    destruct shrink; simpl; [|destruct (Z.eqb nb 0)]; do 3 eexists; (split; [reflexivity|]); split; try congruence;
       intros _; repeat split; auto; discriminate.
 Qed.
 
 Theorem gen_hash_needs_crew_when_owning :
-  forall cnt cap bk shrink, bk <> 0 -> Gen_HashSet.Clear true cnt cap bk shrink = GenPrelude.Stuck.
+  forall nb cnt cap bk shrink, bk <> 0 -> Gen_HashSet.Clear true nb cnt cap bk shrink = GenPrelude.Stuck.
 Proof.
-  intros cnt cap bk shrink H. unfold Gen_HashSet.Clear. destruct (Z.eqb_spec bk 0); [contradiction|]. destruct shrink; reflexivity.
+  intros nb cnt cap bk shrink H. unfold Gen_HashSet.Clear, Gen_HashSet.pvDestroy, Gen_HashSet.pvDestroyB. destruct (Z.eqb_spec bk 0); [contradiction|]. destruct shrink; reflexivity.
 Qed.
 
 (* ---------------------------------------------------------------- HashMultiMap, DataTable: the guard is the crew test itself *)
@@ -108,10 +109,10 @@ Proof. split; reflexivity. Qed.
    reach the crew is total in the moved-from state (crew null, storage pointers null), for every value of the remaining
    fields and arguments *)
 Theorem gen_moved_from_frame :
-  forall cnt cap shrink,
+  forall nb cnt cap shrink,
     Gen_TreeSet.Clear true cnt 0 0 = GenPrelude.Ok (tt, cnt, 0, 0) /\
     Gen_TreeSet.pvDestroy true cnt 0 0 = GenPrelude.Ok tt /\
-    Gen_HashSet.Clear true cnt cap 0 shrink = GenPrelude.Ok (tt, cnt, cap, 0) /\
+    Gen_HashSet.Clear true nb cnt cap 0 shrink = GenPrelude.Ok (tt, cnt, cap, 0) /\
     Gen_HashMultiMap.Clear true cnt = GenPrelude.Ok (tt, cnt) /\
     Gen_DataTable.Clear true = GenPrelude.Ok tt.
 Proof. intros. repeat split. Qed.
@@ -128,7 +129,7 @@ Theorem clear_refines_generated :
   forall c w, cc_wf c ->
     (* tree: root and params both stand for "has a body" in the abstraction *)
     is_ok (cc_clear KTree c w) = gen_ok (Gen_TreeSet.Clear (crew_null_of c) (count_of c) (storage_of c) (storage_of c)) /\
-    is_ok (cc_clear KHash c w) = gen_ok (Gen_HashSet.Clear (crew_null_of c) (count_of c) (count_of c) (storage_of c) true) /\
+    is_ok (cc_clear KHash c w) = gen_ok (Gen_HashSet.Clear (crew_null_of c) 0 (count_of c) (count_of c) (storage_of c) true) /\
     is_ok (cc_clear KMulti c w) = gen_ok (Gen_HashMultiMap.Clear (crew_null_of c) (count_of c)) /\
     is_ok (cc_clear KTable c w) = gen_ok (Gen_DataTable.Clear (crew_null_of c)) /\
     (* and both leave the container without items *)
